@@ -115,6 +115,11 @@ def sexp(t):
 
 
 # ---------------------------------------------------------------- Rust spelling
+# items whose Rust path is not crate::items::<declaration>: same declaration, different modules
+RUST_PATH = {('struct', 'Msg', ('a', 'b'), (False, False)): 'v1::Msg',
+             ('struct', 'Msg', ('id',), (False,)): 'v2::Msg'}
+
+
 def rust(t):
     k = t[0]
     if k == 'prim':
@@ -161,7 +166,7 @@ def rust(t):
                     'toinclusive': 'RangeToInclusive'}[kind[1]]
             return 'core::ops::%s<%s>' % (name, rust(t[2][0]))
         if kind[0] == 'struct':
-            return 'crate::items::' + kind[1]
+            return 'crate::items::' + RUST_PATH.get(kind, kind[1])
         raise ValueError('variant payload has no Rust type')
     if k == 'sum':
         kind = t[1]
